@@ -163,16 +163,21 @@ def run_tree_case(case, ctx):
 EDGE_ALPH = ['none', 'a', 'cb', 'act', 'opx']
 
 
-def edge_spec(kind):
-    """(opics, active) with site-dependent callables for 'act' and 'opx'."""
+# types an activity flag may legitimately have: Python bool, NumPy bool (element of a boolean mask), integer 0/1
+FLAG_TYPES = {'bool': bool, 'npbool': np.bool_, 'int': int, 'npint': np.int64}
+
+
+def edge_spec(kind, flag='bool'):
+    """(opics, active) with site-dependent callables for 'act' and 'opx'; activity flags of type FLAG_TYPES[flag]."""
+    conv = FLAG_TYPES[flag]
     if kind == 'a':
-        return [(1, 1.0)], True
+        return [(1, 1.0)], conv(True)
     if kind == 'cb':
-        return [(2, 0.5)], True
+        return [(2, 0.5)], conv(True)
     if kind == 'act':
-        return [(2, 1.0)], (lambda i: i % 2 == 0)
+        return [(2, 1.0)], (lambda i: conv(i % 2 == 0))
     if kind == 'opx':
-        return (lambda i: [(1, float(i + 1)), (3, -1.0)]), True
+        return (lambda i: [(1, float(i + 1)), (3, -1.0)]), conv(True)
     raise ValueError(kind)
 
 
@@ -214,12 +219,15 @@ def has_path(nn, term, assign, L):
 ID_SETS = {'plain': None, 'scrambled': [10, 3, 25, 17], 'negative': [1, 0, -1, -2]}
 
 
-def _aut_cases(nn, alph, Ls, terms, parallel=False, idsets=('plain',)):
+def _aut_cases(nn, alph, Ls, terms, parallel=False, idsets=('plain',), flags=('bool',)):
     for ids in idsets:
-        for case in _aut_cases_plain(nn, alph, Ls, terms, parallel):
-            if ids != 'plain':
-                case['ids'] = ids
-            yield case
+        for flag in flags:
+            for case in _aut_cases_plain(nn, alph, Ls, terms, parallel):
+                if ids != 'plain':
+                    case['ids'] = ids
+                if flag != 'bool':
+                    case['flag'] = flag
+                yield case
 
 
 def _aut_cases_plain(nn, alph, Ls, terms, parallel=False):
@@ -247,7 +255,7 @@ def run_aut_case(case, ctx):
     nodes = [AutOpNode(ids[i], [], [], qn[i]) for i in range(nn)]
     aut = AutOp(nodes, [], [ids[term[0]], ids[term[1]]])
     for eid, (s, t, kind) in enumerate(assign):
-        opics, active = edge_spec(kind)
+        opics, active = edge_spec(kind, case.get('flag', 'bool'))
         aut.add_connect_edge(AutOpEdge(eid if 'ids' not in case else 40 - 3 * eid, [ids[s], ids[t]], opics, active))
     graph = OpGraph.from_automaton(aut, L)
     ctx.calls += 1
@@ -257,6 +265,8 @@ def run_aut_case(case, ctx):
     kinds = {k for _, _, k in assign}
     if 'act' in kinds or 'opx' in kinds:
         ctx.cls('site_dependent')
+    if 'flag' in case:
+        ctx.cls('activity_flag_type:' + case['flag'])
     if any(s == t for s, t, _ in assign):
         ctx.cls('self_loop')
     bad = sym.graph_consistency(graph, require_connected=True)
@@ -322,6 +332,11 @@ def spaces(tier, seed):
                   bounds={'nodes': 3, 'edge_alphabet': ['none', 'a', 'act'], 'L': [1, 2, 3, 4]}),
             Space('automata3_opx', core.chunked(_aut_cases(3, ['none', 'cb', 'opx'], [2, 3], [[0, 1]]), 500), run_case=run_aut_case, sig=sig,
                   bounds={'nodes': 3, 'edge_alphabet': ['none', 'cb', 'opx'], 'L': [2, 3]}),
+            Space('automata2_flag_types', core.chunked(_aut_cases(2, ['none', 'a', 'act'], [1, 2, 3, 4], [[0, 1], [0, 0]], flags=['npbool', 'int', 'npint']), 300),
+                  run_case=run_aut_case, sig=sig,
+                  bounds={'nodes': 2, 'edge_alphabet': ['none', 'a', 'act'], 'L': [1, 2, 3, 4], 'terminals': [[0, 1], [0, 0]],
+                          'activity_flag_types': ['numpy.bool_', 'int', 'numpy.int64'],
+                          'what': 'activity flags (constants and callable results) that are falsy/truthy without being the singletons False/True'}),
             Space('automata3_ids', core.chunked(_aut_cases(3, ['none', 'a', 'cb'], [2, 3], [[0, 1]], idsets=['scrambled', 'negative']), 500), run_case=run_aut_case, sig=sig,
                   bounds={'nodes': 3, 'edge_alphabet': ['none', 'a', 'cb'], 'L': [2, 3], 'node_ids': ['scrambled', 'negative']}),
             Space('tree_pairs_zero_coeff', core.chunked(_pair_cases([2], [1.0, 0.0]), 500), run_case=run_tree_case, sig=sig,
@@ -352,6 +367,13 @@ def spaces(tier, seed):
                   bounds={'height<=': 2, 'L': [2, 3], 'coeffs': [0.0, 2.0]}),
             Space('automata3', core.chunked(_aut_cases(3, EDGE_ALPH, [1, 2, 3], [[0, 1]]), 2000), run_case=run_aut_case, sig=sig,
                   bounds={'nodes': 3, 'edge_alphabet': EDGE_ALPH, 'L': [1, 2, 3]}),
+            Space('automata2_flag_types', core.chunked(_aut_cases(2, EDGE_ALPH, [1, 2, 3, 4, 5], [[0, 1], [0, 0]], parallel=True, flags=['npbool', 'int', 'npint']), 300),
+                  run_case=run_aut_case, sig=sig,
+                  bounds={'nodes': 2, 'edge_alphabet': EDGE_ALPH, 'L': [1, 2, 3, 4, 5], 'terminals': [[0, 1], [0, 0]],
+                          'activity_flag_types': ['numpy.bool_', 'int', 'numpy.int64']}),
+            Space('automata3_flag_types', core.chunked(_aut_cases(3, ['none', 'a', 'act'], [1, 2, 3, 4], [[0, 1]], flags=['npbool', 'int']), 2000),
+                  run_case=run_aut_case, sig=sig,
+                  bounds={'nodes': 3, 'edge_alphabet': ['none', 'a', 'act'], 'L': [1, 2, 3, 4], 'activity_flag_types': ['numpy.bool_', 'int']}),
         ]
     sp.append(Space('chains_dense', core.chunked(_chain_cases(), 100), run_case=run_chain_case, sig=sig,
                     bounds={'word_length<=': 3, 'letters': [0, 1, 2, 3], 'coeffs': [1.0, -0.5, 2.0]}))
